@@ -50,6 +50,10 @@ def apply_mutant(m, d):
     if s.count(m["old"]) < 1:
         return "old string not found in " + m["file"]
     s = s.replace(m["old"], m["new"], 1)
+    if "old2" in m:
+        if s.count(m["old2"]) < 1:
+            return "old2 string not found in " + m["file"]
+        s = s.replace(m["old2"], m["new2"], 1)
     open(p, "w").write(s)
     return None
 
